@@ -12,6 +12,10 @@ HERE = os.path.dirname(os.path.abspath(__file__))
 VERIF = os.path.dirname(HERE)
 REPO = os.environ.get("VERIF_REPO", "/repo")
 OUT = os.path.join(VERIF, "lean", "Tmcg", "Gen", "Constants.lean")
+# bounds of the OpenPGP packet context (property C12, area parse2): a file of its own, so that the
+# (large) import cone of Constants.lean is not rebuilt when only these change
+OUT_PGPCTX = os.path.join(VERIF, "lean", "Tmcg", "Gen", "PgpCtx.lean")
+PGP_HEADER = os.path.join(REPO, "src", "CallasDonnerhackeFinneyShawThayerRFC4880.hh")
 
 NUMERIC = """TMCG_MR_ITERATIONS TMCG_MAX_ZNP_ITERATIONS TMCG_MAX_DKG_PLAYERS TMCG_GROTH_L_E
 TMCG_DDH_SIZE TMCG_DLSE_SIZE TMCG_QRA_SIZE TMCG_AIO_HIDE_SIZE TMCG_KEYID_SIZE
@@ -82,7 +86,91 @@ def extract_tables(vals):
     return t
 
 
+def pgpctx_members():
+    """every member of `tmcg_openpgp_packet_ctx_t`, read from the header: (array members, all members)."""
+    txt = open(PGP_HEADER).read()
+    m = re.search(r"typedef struct\s*\{((?:(?!typedef struct).)*?)\}\s*tmcg_openpgp_packet_ctx_t\s*;", txt, re.S)
+    if not m:
+        raise SystemExit("gen_constants: cannot find tmcg_openpgp_packet_ctx_t in the OpenPGP header")
+    body = re.sub(r"//[^\n]*", "", m.group(1))
+    arrays, members = [], []
+    for decl in body.split(";"):
+        decl = decl.strip()
+        if not decl:
+            continue
+        mm = re.match(r"^[A-Za-z_][A-Za-z0-9_ \t]*?[ \t*]+([A-Za-z_][A-Za-z0-9_]*)\s*(\[[^\]]*\])?$", decl, re.S)
+        if not mm:
+            raise SystemExit("gen_constants: cannot parse member declaration %r of tmcg_openpgp_packet_ctx_t" % decl)
+        members.append(mm.group(1))
+        if mm.group(2):
+            arrays.append(mm.group(1))
+    if len(arrays) < 20 or len(members) < 100:
+        raise SystemExit("gen_constants: suspiciously few members of tmcg_openpgp_packet_ctx_t: %d arrays, %d members" % (len(arrays), len(members)))
+    return arrays, members
+
+
+# types of the length variables the OpenPGP decoders compute with (width in bits, evaluated by the compiler)
+PGP_WIDTHS = {
+    "PGP_BITS_SIZE_T": "(8 * sizeof(size_t))",
+    "PGP_BITS_UINT32": "(8 * sizeof(uint32_t))",
+    "PGP_BITS_CTX_hspdlen": "(8 * sizeof(ctx.hspdlen))",
+    "PGP_BITS_CTX_encdatalen": "(8 * sizeof(ctx.encdatalen))",
+    "PGP_BITS_CTX_rkwlen": "(8 * sizeof(ctx.rkwlen))",
+    "PGP_BITS_CTX_curveoidlen": "(8 * sizeof(ctx.curveoidlen))",
+    "PGP_BITS_CTX_datafilenamelen": "(8 * sizeof(ctx.datafilenamelen))",
+    "PGP_BITS_CTX_notation_name_length": "(8 * sizeof(ctx.notation_name_length))",
+    "PGP_BITS_CTX_notation_value_length": "(8 * sizeof(ctx.notation_value_length))",
+    "PGP_SIZEOF_CTX": "sizeof(ctx)",
+    "PGP_MAX_ALLOC": "TMCG_OPENPGP_MAX_ALLOC",
+}
+
+def run_pgpctx_printer(arrays):
+    lines = ['#include <cstdio>', '#include <cstdint>', '#include <libTMCG.hh>', 'int main(){', 'static tmcg_openpgp_packet_ctx_t ctx;']
+    for a in arrays:
+        lines.append('printf("CTX_CAP_%s %%llu\\n", (unsigned long long)(sizeof(ctx.%s)));' % (a, a))
+        lines.append('printf("CTX_ELEM_%s %%llu\\n", (unsigned long long)(sizeof(ctx.%s[0])));' % (a, a))
+    for n, e in PGP_WIDTHS.items():
+        lines.append('printf("%s %%llu\\n", (unsigned long long)(%s));' % (n, e))
+    lines.append('return 0;}')
+    with tempfile.TemporaryDirectory(prefix="verif-gen-") as d:
+        src = os.path.join(d, "q.cc"); exe = os.path.join(d, "q")
+        open(src, "w").write("\n".join(lines))
+        cc = subprocess.run(["g++", "-w", "-DHAVE_CONFIG_H", "-DLIBTMCG_VERIF", "-I" + REPO, "-I" + REPO + "/src",
+                             src, "-o", exe, "-lgcrypt", "-lgpg-error", "-lgmp"], capture_output=True, text=True)
+        if cc.returncode != 0:
+            sys.stderr.write(cc.stderr[-3000:]); raise SystemExit("gen_constants: OpenPGP context printer does not compile")
+        out = subprocess.run([exe], capture_output=True, text=True, check=True).stdout
+    vals = {}
+    for l in out.splitlines():
+        k, v = l.split(); vals[k] = int(v)
+    return vals
+
+
+def main_pgpctx():
+    arrays, members = pgpctx_members()
+    vals = run_pgpctx_printer(arrays)
+    for a in arrays:
+        if vals.pop("CTX_ELEM_" + a) != 1:
+            raise SystemExit("gen_constants: array %s of tmcg_openpgp_packet_ctx_t does not consist of octets" % a)
+    o = ["-- GENERATED by tools/gen_constants.py from %s — do not edit" % "/repo (current working tree)",
+         "-- capacities of the fixed-size arrays of tmcg_openpgp_packet_ctx_t (sizeof, evaluated by the compiler),",
+         "-- widths of the length variables the decoders compute with",
+         "namespace Tmcg.Gen"]
+    for k in sorted(vals):
+        o.append("def %s : Nat := %d" % (k, vals[k]))
+    o.append("def CTX_ARRAYS : List (String × Nat) := [%s]" % ", ".join('("%s", %d)' % (a, vals["CTX_CAP_" + a]) for a in arrays))
+    o.append("def CTX_MEMBER_COUNT : Nat := %d" % len(members))
+    o.append("end Tmcg.Gen")
+    txt = "\n".join(o) + "\n"
+    old = open(OUT_PGPCTX).read() if os.path.exists(OUT_PGPCTX) else None
+    if old != txt:
+        tmp = OUT_PGPCTX + ".tmp%d" % os.getpid()
+        open(tmp, "w").write(txt); os.replace(tmp, OUT_PGPCTX)
+    return vals
+
+
 def main():
+    main_pgpctx()
     vals = run_printer()
     tabs = extract_tables(vals)
     o = ["-- GENERATED by tools/gen_constants.py from %s — do not edit" % "/repo (current working tree)",
